@@ -1,18 +1,24 @@
 #!/bin/bash
 # usage: tools/regress_seeded.sh [tier] [id-glob]
-# Applies every stored seeded change in turn to /repo's working tree, runs the check of the property it
-# breaks, and restores the tree. Prints one line per change; exit 1 if any change is no longer detected.
+# Re-runs, for every stored seeded change, the check of the property it breaks, and prints one line per
+# change; exit 1 if any change is no longer detected. The changes are applied in a scratch worktree of
+# /repo's HEAD (removed afterwards; /repo itself stays untouched, so other work can go on) and the runs keep
+# their replay and evidence files apart from /verif's.
 tier="${1:-quick}"; glob="${2:-*}"
+R=/tmp/regress-repo-$$
+git -C /repo worktree add -q --detach $R HEAD || exit 9
+export VERIF_REPO=$R VERIF_REPLAYS_DIR=/tmp/regress-replays-$$ VERIF_EVIDENCE_DIR=/tmp/regress-evidence-$$
 miss=0
 for d in /verif/seeded/$glob/; do
   id=$(basename $d); prop=$(jq -r .breaks_property $d/meta.json)
-  if ! git -C /repo apply --check $d/patch.diff 2>/dev/null; then echo "$id DOES-NOT-APPLY"; miss=1; continue; fi
-  git -C /repo apply $d/patch.diff
+  if ! git -C $R apply --check $d/patch.diff 2>/dev/null; then echo "$id DOES-NOT-APPLY"; miss=1; continue; fi
+  git -C $R apply $d/patch.diff
   out=$(/verif/bin/check $prop $tier 2>&1); rc=$?
-  git -C /repo checkout -- .
+  git -C $R checkout -- .
   sigs=$(echo "$out" | grep "^  $prop|" | cut -d: -f1 | sed 's/^  //' | head -3 | tr '\n' ' ')
   echo "$id $prop exit=$rc $sigs"
   [ $rc -eq 1 ] || miss=1
 done
-git -C /repo status --short | head -3
+git -C /repo worktree remove --force $R; git -C /repo worktree prune
+rm -rf $VERIF_REPLAYS_DIR $VERIF_EVIDENCE_DIR
 exit $miss
